@@ -112,23 +112,31 @@ Section Spec.
         end
     end.
 
-  (** a pipeline: [!] inverts the status unless the command left by return/exit *)
-  Fixpoint sstages (cs : list cmd) (stk : list pos) (parent : bstate) (acc : bstate) (st : status) (pf_st : status)
-    : sres * status * status :=
+  (** stages of a multi-stage pipeline, each in a child process; yields the statuses.
+      A compound stage runs in a subshell proper (loop_level reset); a simple command is forked as
+      it is and still sees the enclosing loops (only `break 0` can tell the difference). *)
+  Fixpoint sstages (cs : list cmd) (stk : list pos) (parent : bstate) (acc : bstate) : sres * list status :=
     match cs with
-    | [] => (SNorm acc, st, pf_st)
+    | [] => (SNorm acc, [])
     | c :: cs' =>
         let is_last := match cs' with [] => true | _ => false end in
-        (* a compound stage runs in a subshell proper (loop_level reset); a simple command is forked
-           as it is and still sees the enclosing loops (only `break 0` can tell the difference) *)
         let lvl := match c with Leaf _ => loop_level parent | _ => 0 end in
         let c0 := mkB (b_sh parent) (b_out acc) (b_quiet parent || negb is_last) 0 0 lvl in
         match reap parent (rec c (PStage :: stk) c0) with
-        | SNorm p1 => sstages cs' stk parent p1 (slast p1) (if Nat.eqb (slast p1) 0 then pf_st else slast p1)
-        | o => (o, st, pf_st)
+        | SNorm p1 => let '(o, sts) := sstages cs' stk parent p1 in (o, slast p1 :: sts)
+        | o => (o, [])
         end
     end.
 
+  (** the status of a pipeline: that of the last stage; under pipefail the rightmost non-zero one,
+      if any *)
+  Definition pipe_status (pf : bool) (sts : list status) : status :=
+    match (if pf then find (fun n => negb (Nat.eqb n 0)) (rev sts) else None) with
+    | Some n => n
+    | None => List.last sts 0
+    end.
+
+  (** a pipeline: [!] inverts the status unless the command left by return/exit *)
   Definition spipeline (p : pipeline) (stk : list pos) (s : bstate) : sres :=
     if busy s then SNorm s else
     let '(bang, stages) := p in
@@ -137,11 +145,10 @@ Section Spec.
     match stages with
     | [c] => sbind (rec c stk' s) (fun s1 => SNorm (invert s1))
     | _ =>
-        match sstages stages stk' s s 0 0 with
-        | (SNorm s1, st, pf_st) =>
-            let status := if pipefail (opt (b_sh s)) && negb (Nat.eqb pf_st 0) then pf_st else st in
-            errexit_check stk' (invert (b_set_last status s1))
-        | (o, _, _) => o
+        match sstages stages stk' s s with
+        | (SNorm s1, sts) =>
+            errexit_check stk' (invert (b_set_last (pipe_status (pipefail (opt (b_sh s))) sts) s1))
+        | (o, _) => o
         end
     end.
 
